@@ -109,24 +109,33 @@ theorem typeFinish_width (f : Fmt) (name : Str) (r : Res) (w : Nat) (hw : f.widt
   | reported c => simp [Res.bind] at h
   | fault e => simp [Res.bind] at h
 
-/-- the kinds of the extended model under a letter whose arm applies the string flags: SemVer / URI `s`, Type `s p` -/
+/-- the kinds of the extended model whose arms apply the string flags: SemVer, URI, SemVerRange (every letter they format, after
+    fix 5c2f826), Type -/
 theorem fmtX_width_flagged {κ : Type} (ks : KeySys κ) (io : FloatIO) (m : GMap κ) (ind : Ind) (v : XVal) (w : Nat)
-    (hk : v.kind = .semver ∨ v.kind = .uri ∨ v.kind = .typ)
-    (hfl : honoursFlags v.kind (getG ks m v).f.letter = true)
+    (hk : v.kind = .semver ∨ v.kind = .uri ∨ v.kind = .semverRange ∨ v.kind = .typ)
     (hw : (getG ks m v).f.width = some w) (s : Str) (h : fmtX ks io m ind v = .text s) : w ≤ s.length := by
   cases v with
   | semver t =>
     simp only [fmtX, fmtSemVer] at h
-    simp [honoursFlags, modelFlagsAlways, modelFlagged, XVal.kind] at hfl
-    rw [if_pos hfl] at h
-    cases h
-    exact applyStringFlags_width _ _ _ w hw
+    split at h
+    · cases h; exact applyStringFlags_width _ _ _ w hw
+    · split at h
+      · cases h; exact applyStringFlags_width _ _ _ w hw
+      · cases h
   | uri t =>
     simp only [fmtX, fmtUri] at h
-    simp [honoursFlags, modelFlagsAlways, modelFlagged, XVal.kind] at hfl
-    rw [if_pos hfl] at h
-    cases h
-    exact applyStringFlags_width _ _ _ w hw
+    split at h
+    · cases h; exact applyStringFlags_width _ _ _ w hw
+    · split at h
+      · cases h; exact applyStringFlags_width _ _ _ w hw
+      · cases h
+  | semverRange t n =>
+    simp only [fmtX, fmtSemVerRange] at h
+    split at h
+    · cases h; exact applyStringFlags_width _ _ _ w hw
+    · split at h
+      · cases h; exact applyStringFlags_width _ _ _ w hw
+      · cases h
   | typ name ps =>
     cases ps with
     | nil =>
